@@ -52,6 +52,7 @@ func (c *ConfigReceiver) Derive(adjust curve.Scalar, newChainKey []byte) (*Confi
 		Setup:       c.Setup,
 		SecretShare: c.SecretShare.Curve().NewScalar().Set(c.SecretShare).Add(adjust),
 		Public:      c.Public.Add(adjustG),
+		ChainKey:    newChainKey,
 	}, nil
 }
 
@@ -164,10 +165,13 @@ func (c *ConfigSender) Derive(adjust curve.Scalar, newChainKey []byte) (*ConfigS
 
 	adjustG := adjust.ActOnBase()
 
+	// the key is shared additively and the Receiver already adds the adjustment to its share:
+	// adding it here as well would move the joint secret by twice the adjustment
 	return &ConfigSender{
 		Setup:       c.Setup,
-		SecretShare: c.SecretShare.Curve().NewScalar().Set(c.SecretShare).Add(adjust),
+		SecretShare: c.SecretShare.Curve().NewScalar().Set(c.SecretShare),
 		Public:      c.Public.Add(adjustG),
+		ChainKey:    newChainKey,
 	}, nil
 }
 
